@@ -205,7 +205,16 @@ fn shape_cases(shape: &[u8], variant: u64) -> Vec<SubCase> {
                 seen_skip = true;
             }
             2 => {
-                fields.push((name.clone(), GVal::List(vec![GVal::Int(1), s("l i")])));
+                // a list flag repeats the flag for every primitive item; items that are lists
+                // or tuples are left out wherever they stand
+                let nested_list = GVal::List(vec![s("nested")]);
+                let nested_tuple = tup(vec![("t", GVal::Int(1))]);
+                let items: Vec<GVal> = match (variant / 4 + i as u64) % 3 {
+                    0 => vec![GVal::Int(1), s("l i")],
+                    1 => vec![GVal::Int(1), nested_list, s("l i")],
+                    _ => vec![nested_tuple, GVal::Int(1), nested_list, s("l i")],
+                };
+                fields.push((name.clone(), GVal::List(items)));
                 env_wants.push(Want::Var(name.clone(), None));
                 argv.push((Scalar::Str(format!("--{}", name)), false));
                 argv.push((Scalar::Int(1), false));
